@@ -49,6 +49,7 @@ def coneK(K):
 
 
 # ------------------------------------------------------------ implementation runners
+SHARE_CONES = [False]
 MUTATED = []      # (function, what) — a standard-form routine changed the caller's (c, A, b, K): a later solve sees other data
 
 
@@ -59,6 +60,10 @@ class Frozen:
         self.A = sp.csc_matrix(np.array(A, dtype=float).reshape(len(A), n))
         self.b = np.array(b, dtype=float)
         self.K = cones(K)
+        if SHARE_CONES[0]:
+            # the caller lists the SAME Cone object wherever type and length coincide (K = [Cone('+',1)] + 2*[Cone('S',3)])
+            first = {}
+            self.K = [first.setdefault((co.type, co.len), co) for co in self.K]
         self.snap = (self.c.copy(), self.A.toarray().copy(), self.b.copy(), [(co.type, co.len) for co in self.K])
 
     def check(self, fn):
@@ -354,6 +359,7 @@ def run(ctx):
     ecos_cases, sep_cases, mp_cases, md_cases = [], [], [], []
     for K in Ks:
         n = ctx.rng.randint(1, 3)
+        SHARE_CONES[0] = ctx.rng.random() < 0.3
         c, A, b, pts = gen_instance(ctx.rng, K, n)
         for t, _ in K:
             ctx.count('cone_types', t)
